@@ -143,7 +143,14 @@ def run(ctx):
             try:
                 with impl.quiet(), core.watchdog(20):
                     p = Program()
-                    p.assemble_string_with_emitter(first, "first.s", impl.CollectWriter())
+                    try:
+                        first_err = p.assemble_string_with_emitter(first, "first.s", impl.CollectWriter())
+                    except Exception:  # noqa: BLE001
+                        first_err = "raised"
+                    if first_err is not None:
+                        # a Program left half-way by a failed assembly is not a state the property speaks about
+                        s2.count("first-source-failed:no-claim")
+                        continue
                     err = p.assemble_string_with_emitter(second, "second.s", impl.CollectWriter())
                 if err is not None:
                     res = {"status": "rejected", "exc": None, "error": err}
